@@ -194,7 +194,7 @@ Lemma check_transformer_fields s tr :
        (member_flags (n_site_stations s) (t_members tr)) = true
   /\ Q2R (site_limit s (t_b tr)) = Q2R (site_limit s (t_a tr))
   /\ Q2R (site_limit s (t_c tr)) = Q2R (site_limit s (t_a tr))
-  /\ 0 < Q2R (site_limit s (t_a tr))
+  /\ 0 <= Q2R (site_limit s (t_a tr))
   /\ 3 * 120 * Q2R (site_limit s (t_a tr)) <= 1000 * Q2R (t_cap tr) * (1 + Q2R eps50).
 Proof.
   unfold check_transformer. intros H.
@@ -206,7 +206,7 @@ Proof.
   repeat split; auto.
   - now apply qeq_Q2R.
   - now apply qeq_Q2R.
-  - match goal with H : Qltb 0 _ = true |- _ => apply Qltb_spec in H; apply Qlt_Rlt in H;
+  - match goal with H : Qleb 0 _ = true |- _ => apply Qleb_spec in H; apply Qle_Rle in H;
       rewrite RMicromega.Q2R_0 in H; exact H end.
   - match goal with H : Qleb (3 * 120 * _) _ = true |- _ => apply Qleb_spec in H; apply Qle_Rle in H;
       rewrite !Q2R_mult, Q2R_plus in H; rewrite RMicromega.Q2R_1 in H;
